@@ -1,5 +1,5 @@
 """C01 — completeness: the recorded witness satisfies every emitted constraint."""
-import tracecheck
+import tracecheck, progs
 
 PID = "C01"
 PROFILE = {"p_ignore": 0.0, "p_valid_inputs": 0.75,
@@ -18,9 +18,35 @@ def oracle(case, rec, group):
     return []
 
 
+REAL = [("snarkjs", progs.BN), ("zkinterface", progs.BN), ("zkifbellman", progs.BLS), ("zkifbulletproofs", progs.C25519)]
+
+
+def real_backend_pass(cov, cases, viol_sink):
+    """the same completeness oracle with the real backend modules receiving the constraints (their own
+    fieldinverse / modulus / LC classes), on the cases whose modulus is that backend's"""
+    tot = 0
+    for name, p in REAL:
+        sub = [c for c in cases if c["cfg"]["p"] == p][:150]
+        if not sub: continue
+        try:
+            recs = progs.run_impl_cases(sub, real_backend=name)
+        except Exception as e:
+            viol_sink.append(dict(kind="harness", concrete=False, what="real-backend run (%s) failed" % name, detail=str(e)[-800:]))
+            continue
+        for c, r in zip(sub, recs):
+            tot += 1
+            for v in oracle(c, r, None):
+                v.update(kind="oracle", backend=name, case=dict(cfg=c["cfg"], prog=c["prog"], ins=c["ins"], backend=name))
+                viol_sink.append(v)
+    cov["real_backend_runs"] = tot
+
+
 def post(cov, cases, recs):
     cov["completed_runs_checked"] = sum(1 for c, r in zip(cases, recs) if r["exn"] is None and not c["cfg"]["ign"])
     cov["constraints_evaluated"] = sum(r["ncons"] for c, r in zip(cases, recs) if r["exn"] is None and not c["cfg"]["ign"])
+    sink = []
+    real_backend_pass(cov, cases, sink)
+    return sink[:6]
 
 
 def run(tier, seed):
